@@ -8,7 +8,8 @@
     the correspondence check harness/props/c19.py against these closed forms
     evaluated in 60-digit decimal arithmetic; it is not proved. *)
 From Coq Require Import Reals List Bool Arith.
-From PS Require Import Base.Sexp Base.Prog Gram.Det NN.Encode NN.EncodeProofs NN.Predict NN.PredictProofs.
+From PS Require Import Base.Sexp Base.Prog Gram.Det Gram.U NN.Encode NN.EncodeProofs NN.Predict NN.PredictProofs
+     NN.EncodeU NN.EncodeUProofs NN.PredictU NN.PredictUProofs.
 Import ListNotations.
 Local Open Scope R_scope.
 
@@ -166,3 +167,148 @@ Theorem C19_start_entries : forall (abs : nt -> akey) gs starts x,
             nth_error (start_keys abs starts) (i - output_size abs gs) = Some (abs x).
 Proof. exact start_entries. Qed.
 Print Assumptions C19_start_entries.
+
+(** ======== U layers on unambiguous grammars with several alternatives per
+    (non-terminal, primitive) and several start symbols (rule tables of
+    Gram/U.v: UCFG.from_DFTA, from_DFTA_with_ngrams, hand-built UCFG) ======== *)
+
+(** The layer tags every alternative of a primitive P of S with the same slice
+    entry: [idx c = alts_idx l] lists the position of P once per alternative
+    (l = (position, number of alternatives) per primitive rule of S).  Every
+    alternative of P gets  pmass * exp(x_P) / sum over ALL derivable
+    (P', alternative') of exp(x_P')  (the normaliser counts a primitive once per
+    alternative), variables and constants as in C19_closed_form with nv / nc =
+    the numbers of (variable, alternative) / (constant, alternative) entries of S
+    (a function-typed variable can have several); these sum to pmass; the
+    converted grammar divides by 1 - delta.  C19_positive, C19_normalised,
+    C19_variable_mass, C19_normalised_u hold as they are (any idx, nv, nc). *)
+Theorem C19_closed_form_alts : forall c l, conf_ok c -> idx c = alts_idx l ->
+  weights c = closed_alts c l ++ closed_vc c /\
+  u_weights c = map (fun w => w / (1 - delta c)) (closed_alts c l ++ closed_vc c) /\
+  sumR (closed_alts c l) = pmass c /\
+  alts_sum (slice c) l = sumR (map (fun i => exp (nth i (slice c) 0)) (idx c)).
+Proof. exact closed_form_alts. Qed.
+Print Assumptions C19_closed_form_alts.
+
+(** satisfiable: S -> + (two alternatives) | 1 | var0, v = 1/4, slice [1; 7; -2] *)
+Theorem C19_alts_nonvacuous :
+  (conf_ok example_conf_alts /\ idx example_conf_alts = [0; 0; 2]%nat) /\
+  nth 0 (weights example_conf_alts) 0 = (3 / 4) * exp 1 / (2 * exp 1 + exp (-2)) /\
+  nth 3 (weights example_conf_alts) 0 = 1 / 4.
+Proof. exact alts_nonvacuous. Qed.
+Print Assumptions C19_alts_nonvacuous.
+
+(** several start symbols: exp of the start tags, also after to_prob_u_grammar's
+    normalise, is the softmax of the start entries selected for the grammar *)
+Theorem C19_start_softmax : forall zs, zs <> [] ->
+  map exp (start_tags zs) = softmax zs /\ normalise (map exp (start_tags zs)) = softmax zs /\
+  sumR (softmax zs) = 1 /\ Forall (fun w => 0 < w) (softmax zs).
+Proof. exact start_softmax. Qed.
+Print Assumptions C19_start_softmax.
+
+(** Programs.  x = the first start symbol that derives p, d = its first derivation
+    from x (steps (S, P, alternative) in pre-order; the only derivation when the
+    grammar is unambiguous).  log_probability(p) = start tag of x + sum of the
+    tags along d (repaired code, see NN/PredictU.v); the grammar converted with
+    exp and renormalised by Z(S) gives exp(start tag) * prod exp(tag)/Z(S);
+    with an explicit start symbol the start tag is left out on both sides. *)
+Theorem C19_logprob_multi :
+  forall tbl (stag : unt -> R) (tag : unt -> sym -> ualt -> R) (Zs : unt -> R) starts p x d rest,
+  (forall y, Zs y <> 0) ->
+  find (fun y => ucontains_at tbl y p) starts = Some x ->
+  uderivations_from tbl x p = d :: rest ->
+  ulog_probability tbl stag tag starts p = Some (stag x + sumR (map (tag_of tag) d)) /\
+  uprobability_R tbl (fun y => exp (stag y)) (fun y s a => exp (tag y s a) / Zs y) starts p
+  = exp (stag x + sumR (map (tag_of tag) d)) / prodR (map (fun st => Zs (nt_of_step st)) d) /\
+  uprobability_at_R tbl (fun y s a => exp (tag y s a)) x p = exp (sumR (map (tag_of tag) d)) /\
+  ulog_probability_at tbl tag x p = Some (sumR (map (tag_of tag) d)).
+Proof. exact ulogprob_multi. Qed.
+Print Assumptions C19_logprob_multi.
+
+Theorem C19_exp_logprob_multi :
+  forall tbl (stag : unt -> R) (tag : unt -> sym -> ualt -> R) starts p x d rest,
+  find (fun y => ucontains_at tbl y p) starts = Some x ->
+  uderivations_from tbl x p = d :: rest ->
+  option_map exp (ulog_probability tbl stag tag starts p)
+  = Some (uprobability_R tbl (fun y => exp (stag y)) (fun y s a => exp (tag y s a)) starts p).
+Proof. exact uexp_log_probability. Qed.
+Print Assumptions C19_exp_logprob_multi.
+
+(** not vacuous on the language: a program of the grammar (membership of
+    Gram/U.v, arities agreeing with the rules) has such an x and d; outside the
+    language the probability is 0 *)
+Theorem C19_u_defined_on_language : forall tbl starts p,
+  ucontains tbl starts p = true -> (forall y, In y starts -> shape_ok tbl y p = true) ->
+  exists x d rest, find (fun y => ucontains_at tbl y p) starts = Some x /\ uderivations_from tbl x p = d :: rest.
+Proof. exact ulogprob_defined. Qed.
+Print Assumptions C19_u_defined_on_language.
+
+Theorem C19_u_outside_zero : forall tbl sw w starts p,
+  ucontains tbl starts p = false -> uprobability_R tbl sw w starts p = 0.
+Proof. exact uprobability_R_outside. Qed.
+Print Assumptions C19_u_outside_zero.
+
+(** the derivations: as many as Gram/U.v counts, made of rules and alternatives
+    of the table; reduce_derivations is one left fold per derivation *)
+Theorem C19_u_derivations : forall tbl starts x p,
+  length (uderivations_from tbl x p) = uderivations tbl x p /\
+  (forall d, In d (uderivations_all tbl starts p) -> Forall (step_ok tbl) d) /\
+  (forall (T : Type) (f : T -> unt -> sym -> ualt -> T) init,
+      ureduce f tbl starts init p = map (ufold f init) (uderivations_all tbl starts p)).
+Proof. exact u_derivations_facts. Qed.
+Print Assumptions C19_u_derivations.
+
+(** The encoder of the U layer: marks exactly the primitive steps of the
+    derivations; every primitive step has an index (the same for all the
+    alternatives of the primitive); variables and constants have none. *)
+Theorem C19_u_encode : forall (abs : unt -> akey) gs tbl starts p,
+  In tbl gs ->
+  (forall i, In i (uencode abs gs tbl starts p) <->
+             exists d x s alt, In d (uderivations_all tbl starts p) /\ In (x, s, alt) d /\ is_prim s = true /\
+                               uindex abs gs x s = Some i) /\
+  (forall d x s alt, In d (uderivations_all tbl starts p) -> In (x, s, alt) d -> is_prim s = true ->
+                     exists i, uindex abs gs x s = Some i /\ In i (uencode abs gs tbl starts p)) /\
+  (forall x s, is_prim s = false -> uindex abs gs x s = None).
+Proof. exact uencode_exact. Qed.
+Print Assumptions C19_u_encode.
+
+Theorem C19_u_encode_unique : forall (abs : unt -> akey) gs tbl starts p d,
+  In tbl gs -> uderivations_all tbl starts p = [d] ->
+  forall i, In i (uencode abs gs tbl starts p) <->
+            exists x s alt, In (x, s, alt) d /\ is_prim s = true /\ uindex abs gs x s = Some i.
+Proof. exact uencode_unique. Qed.
+Print Assumptions C19_u_encode_unique.
+
+(** The layout of the U layer: one index per (abstraction, primitive) pair of the
+    tables, whatever the number of alternatives; indices fill [0, slice size). *)
+Theorem C19_u_layout : forall (abs : unt -> akey) gs,
+  (forall k s k' s' i, index_in (ulayout abs gs) k s = Some i -> index_in (ulayout abs gs) k' s' = Some i ->
+                       k = k' /\ s = s') /\
+  (forall k s i, index_in (ulayout abs gs) k s = Some i -> (i < uslice_size abs gs)%nat) /\
+  (forall i, (i < uslice_size abs gs)%nat -> exists k s, index_in (ulayout abs gs) k s = Some i) /\
+  (forall k s, (exists i, index_in (ulayout abs gs) k s = Some i) <->
+               exists tbl x rs alts, In tbl gs /\ In (x, rs) tbl /\ In (s, alts) rs /\ is_prim s = true /\ k = abs x).
+Proof. exact ulayout_bijection. Qed.
+Print Assumptions C19_u_layout.
+
+(** one extra entry per distinct abstraction of a start symbol (all the start
+    symbols of all the grammars of the layer), after the slices *)
+Theorem C19_u_start_entries : forall (abs : unt -> akey) gs starts x,
+  In x starts ->
+  exists i, ustart_index abs gs starts x = Some i /\
+            (uslice_size abs gs <= i < uoutput_size abs gs starts)%nat /\
+            nth_error (ustart_keys abs starts) (i - uslice_size abs gs) = Some (abs x).
+Proof. exact ustart_entries. Qed.
+Print Assumptions C19_u_start_entries.
+
+(** the grammar of the regression that escaped the previous version of this
+    check (S -> + | C0 V1 | V0 C1): one derivation per program, both
+    alternatives of + share one index *)
+Theorem C19_u_example :
+  uderivations_all UEncExample.tbl [UEncExample.root] UEncExample.p1
+  = [[(UEncExample.root, UEncExample.plus, [UEncExample.C0; UEncExample.V1]);
+      (UEncExample.C0, UEncExample.one, []); (UEncExample.V1, UEncExample.var0, [])]] /\
+  uencode abs_bigram_u [UEncExample.tbl] UEncExample.tbl [UEncExample.root] UEncExample.p1 = [0; 2]%nat /\
+  uencode abs_bigram_u [UEncExample.tbl] UEncExample.tbl [UEncExample.root] UEncExample.p2 = [0; 4; 6]%nat.
+Proof. exact u_example. Qed.
+Print Assumptions C19_u_example.
